@@ -22,15 +22,16 @@ MCSyms == ProgFile.syms
 Inputs == ToSetSeq(ProgFile.inputs) \cup {"BAD", "LONG"}
 InClass(i) == IF i = "BAD" THEN "bad" ELSE IF i = "LONG" THEN "long" ELSE "ok"
 SymNames == DOMAIN MCSyms
+Cfg == ProgFile.engine      \* [first, rempty]: engine options of this application
 
 VARIABLES e, phase, nreq, g, obs, hist
 vars == <<e, phase, nreq, g, obs, hist>>
 
 G0 == [inmoves |-> 0, matched |-> FALSE, read |-> FALSE, ok |-> TRUE, why |-> "", lvl |-> [k \in {} |-> 0], croaked |-> FALSE]
 NoObs == [kind |-> "none", cont |-> TRUE, err |-> FALSE, panic |-> FALSE, page |-> NoPage, pre |-> NewSession(Cap, NFlags),
-          input |-> "", incls |-> "ok", ran |-> FALSE, ended |-> FALSE]
+          input |-> "", incls |-> "ok", ran |-> FALSE, ended |-> FALSE, cf |-> {}]
 
-Init == /\ e = NewEngine(NewSession(Cap, NFlags))
+Init == /\ e = WithCfg(NewEngine(NewSession(Cap, NFlags)), Cfg)
         /\ phase = "idle" /\ nreq = 0 /\ g = G0 /\ obs = NoObs
         /\ hist = <<>>
 
@@ -65,15 +66,16 @@ GhostStep(pre, r) ==
 (* ---- actions *)
 Request(in) ==
   /\ phase = "idle" /\ nreq < MaxReq
-  /\ LET e0 == IF Mode = "P" THEN LoadEngine(e.s) ELSE e
+  /\ LET e0 == IF Mode = "P" THEN WithCfg(LoadEngine(e.s), Cfg) ELSE e
          b == ExecBegin([e0 EXCEPT !.s.calls = <<>>, !.s.looks = <<>>], in, InClass(in)) IN
      /\ nreq' = nreq + 1
      /\ g' = [G0 EXCEPT !.lvl = g.lvl, !.croaked = g.croaked]
      /\ hist' = Append(hist, [input |-> in, picks |-> <<>>])
-     /\ IF b.run THEN /\ e' = [b.e EXCEPT !.s = RunStart(@)] /\ phase' = "run"
-                      /\ obs' = [NoObs EXCEPT !.kind = "begin", !.pre = e0.s, !.input = in, !.incls = InClass(in)]
-        ELSE /\ e' = b.e /\ phase' = "flush"
+     /\ IF b.stage = "stop"
+        THEN /\ e' = b.e /\ phase' = "flush"
              /\ obs' = [NoObs EXCEPT !.kind = "exec", !.cont = b.cont, !.err = b.err, !.pre = e0.s, !.input = in, !.incls = InClass(in)]
+        ELSE /\ e' = [b.e EXCEPT !.s = RunStart(@)] /\ phase' = b.stage           \* "run", or "first": the pre-VM check
+             /\ obs' = [NoObs EXCEPT !.kind = "begin", !.pre = e0.s, !.input = in, !.incls = InClass(in)]
 
 \* the external function about to be called (if any) may return any of its alternative results: the choice is
 \* made when the call happens, and recorded in call order in the history
@@ -95,21 +97,40 @@ Step ==
         ELSE /\ e' = [e EXCEPT !.s = r.s] /\ phase' = "run" /\ obs' = [obs EXCEPT !.kind = "step"]
      /\ UNCHANGED nreq
 
+\* one iteration of the pre-VM check (LOAD _first 0 / HALT in the scratch scope); when it is over the request goes on
+\* with the application's code, or stops
+FirstStep ==
+  /\ phase = "first"
+  /\ \E i \in (IF NextCall = "" THEN {1} ELSE 1..Len(MCSyms[NextCall])) :
+     LET s0 == IF NextCall = "" THEN e.s ELSE [e.s EXCEPT !.pick = [k \in {NextCall} |-> i]]
+         r0 == Iter(s0)
+         r == [r0 EXCEPT !.s.pick = <<>>] IN
+     /\ hist' = IF NextCall = "" THEN hist ELSE [hist EXCEPT ![Len(hist)].picks = Append(@, i)]
+     /\ IF r.done
+        THEN LET f == FirstEnd(e, r, obs.input, obs.incls) IN
+             IF f.over THEN /\ e' = f.q.e /\ phase' = "flush"
+                            /\ obs' = [obs EXCEPT !.kind = "exec", !.cont = f.q.cont, !.err = f.q.err, !.panic = f.q.panic]
+             ELSE IF f.b.run THEN /\ e' = [f.b.e EXCEPT !.s = RunStart(@)] /\ phase' = "run" /\ obs' = [obs EXCEPT !.kind = "step"]
+             ELSE /\ e' = f.b.e /\ phase' = "flush"
+                  /\ obs' = [obs EXCEPT !.kind = "exec", !.cont = f.b.cont, !.err = f.b.err]
+        ELSE /\ e' = [e EXCEPT !.s = r.s] /\ phase' = "first" /\ obs' = [obs EXCEPT !.kind = "step"]
+     /\ UNCHANGED <<nreq, g>>
+
 Flush ==
   /\ phase = "flush"
   /\ LET f == FlushReq(e, TRUE) IN
      /\ e' = f.e /\ phase' = "idle"
-     /\ obs' = [obs EXCEPT !.kind = "flush", !.page = f.page, !.ended = e.exiting]
+     /\ obs' = [obs EXCEPT !.kind = "flush", !.page = f.page, !.ended = e.exiting, !.cf = {x \in e.s.flags : x >= 8}]
   /\ UNCHANGED <<nreq, g, hist>>
 
-Next == (\E in \in Inputs : Request(in)) \/ Step \/ Flush
+Next == (\E in \in Inputs : Request(in)) \/ Step \/ FirstStep \/ Flush
 Spec == Init /\ [][Next]_vars
 
 View == <<e, phase, nreq, g, obs>>
 \* One line per generated transition that completes a request, and one per transition that makes an external call
 \* (histories that differ only in an external result can converge to one view-state at once - e.g. a RELOAD whose result
 \* is refused - and would otherwise be emitted only once): the client history that reaches it, for replay on the real engine.
-Emit == ((phase' = "idle" /\ phase = "flush") \/ (phase = "run" /\ NextCall # "")) =>
+Emit == ((phase' = "idle" /\ phase = "flush") \/ (phase \in {"run", "first"} /\ NextCall # "")) =>
            PrintT(<<"MBT", ToJson([mode |-> Mode, hist |-> hist'])>>)
 
 S == e.s
@@ -119,8 +140,11 @@ C03_FirstMatchWins     == g.ok
 C03_NoMatchGoesToCatch == (obs.kind = "exec" /\ obs.ran /\ ~obs.err /\ g.read /\ ~g.matched /\ TERMINATE \notin S.flags) =>
                              Top(S) = "_catch" /\ S.errp = [cls |-> "invalid", arg |-> obs.input]
 (* ---- C04 / C08 *)
-C04_PositionWellFormed == /\ S.idx >= 0 /\ \A i \in 1..Len(S.path) : S.path[i] \in DOMAIN MCProg
-                          /\ (Len(S.path) > 0 => S.path[1] = Root)
+\* (while the pre-VM check runs its scratch node "_first" is on top of the path)
+AppPath == IF phase = "first" THEN SubSeq(S.path, 1, Len(S.path) - 1) ELSE S.path
+C04_PositionWellFormed == /\ S.idx >= 0 /\ \A i \in 1..Len(AppPath) : AppPath[i] \in DOMAIN MCProg
+                          /\ (Len(AppPath) > 0 => AppPath[1] = Root)
+                          /\ (phase = "first" => S.path[Len(S.path)] = "_first")
 \* one cache scope per navigation level (carve-out: the known finding KF-croak-keeps-path, ghost g.croaked)
 C08_Levels == ~g.croaked => Levels(S)
 C08_Consistent == Consistent(S.c)
@@ -128,12 +152,15 @@ C08_NoPanic == ~obs.panic
 (* ---- C05 *)
 C05_ScopeLifetime == ~g.croaked => \A k \in DOMAIN g.lvl : Visible(S.c, k) => (FrameOf(S.c, k) = g.lvl[k] + 1 /\ g.lvl[k] <= Len(S.path))
 C05_LimitsHold == LimitsHold(S.c)
-C05_MappedVisible == \A k \in DOMAIN S.mapped : Visible(S.c, k)
+\* (a restart on empty input unwinds the session before the VM runs: the renderer registers are stale until its MOVE)
+C05_MappedVisible == ~(Cfg.rempty /\ obs.kind = "begin") => \A k \in DOMAIN S.mapped : Visible(S.c, k)
 (* ---- C06 *)
-C06_TerminateBlocks == (obs.kind = "exec" /\ TERMINATE \in obs.pre.flags /\ obs.incls = "ok") =>
+\* ("until the flag is cleared": with ResetOnEmptyInput the empty input clears it and restarts the session)
+C06_TerminateBlocks == (obs.kind = "exec" /\ TERMINATE \in obs.pre.flags /\ obs.incls = "ok" /\ ~(Cfg.rempty /\ obs.input = "")) =>
                           /\ ~obs.cont /\ S.calls = <<>> /\ NavProj(S) = NavProj(obs.pre) /\ CacheProj(S) = CacheProj(obs.pre)
 (* ---- C17 *)
-C17_RejectNoEffect == (obs.kind = "exec" /\ obs.incls # "ok") =>
+\* (not judged for applications with a pre-VM check: by design it runs in the scratch scope before the input is validated)
+C17_RejectNoEffect == (obs.kind = "exec" /\ obs.incls # "ok" /\ ~Cfg.first) =>
                           /\ obs.err /\ ~obs.ran /\ S.calls = <<>>
                           /\ NavProj(S) = NavProj(obs.pre) /\ S.flags = obs.pre.flags /\ CacheProj(S) = CacheProj(obs.pre)
                           /\ (S.code = obs.pre.code \/ (obs.pre.code = <<>> /\ S.code = RootCode))
@@ -141,7 +168,8 @@ C17_RejectNoEffect == (obs.kind = "exec" /\ obs.incls # "ok") =>
 C20_GracefulEndUnwinds == (obs.kind = "flush" /\ obs.ended) =>
                              /\ S.path = <<>> /\ S.c.frames = <<EmptyF>> /\ S.c.used = 0 /\ S.code = <<>>
                              /\ TERMINATE \notin S.flags
-C20_ClientFlagsKept == (obs.kind = "flush" /\ obs.ended) => {f \in S.flags : f >= 8} = {f \in obs.pre.flags : f >= 8} \cup {f \in S.flags : f >= 8}
+\* the unwinding after the final output keeps the client flags as the request left them
+C20_ClientFlagsKept == (obs.kind = "flush" /\ obs.ended) => {f \in S.flags : f >= 8} = obs.cf
 C18_LangReaches == \A i \in DOMAIN S.looks : S.looks[i].want # "" => S.looks[i].lang = S.looks[i].want
 C20_RestartAtRoot == (obs.kind = "exec" /\ obs.ran /\ obs.pre.path = <<>> /\ ~obs.err /\ Len(S.path) > 0) => S.path[1] = Root
 =============================================================================
